@@ -1389,3 +1389,41 @@ pub fn info_namespace_names(doc: &str, expected: &str) -> Outcome {
     });
     Outcome { observed, expected: expected.to_string(), note: String::new() }
 }
+
+// ------------------------------------------------------------------------------------------------
+// C11: defaulted attributes (XML 1.0 3.3.2): the attributes of the document element, sorted by name, as
+// name=value/specified|defaulted
+
+pub const ATTR_DEFAULT_CASES: [(&str, &str); 8] = [
+    ("<!DOCTYPE r [<!ATTLIST r a CDATA #REQUIRED b CDATA #IMPLIED c CDATA 'd' e CDATA #FIXED 'f'>]><r/>", "c=d/defaulted e=f/defaulted"),
+    ("<!DOCTYPE r [<!ATTLIST r a CDATA #REQUIRED b CDATA #IMPLIED c CDATA 'd'>]><r a='1' b='2'/>", "a=1/specified b=2/specified c=d/defaulted"),
+    ("<!DOCTYPE r [<!ATTLIST r c CDATA 'd'><!ATTLIST r c CDATA 'x' g CDATA 'h'>]><r/>", "c=d/defaulted g=h/defaulted"),
+    ("<!DOCTYPE r [<!ATTLIST r c CDATA 'd'><!ATTLIST r c CDATA 'x' g CDATA 'h'>]><r c='own'/>", "c=own/specified g=h/defaulted"),
+    ("<!DOCTYPE r [<!ATTLIST s c CDATA 'd'><!ATTLIST r k CDATA 'v'>]><r/>", "k=v/defaulted"),
+    ("<!DOCTYPE r [<!ATTLIST r c CDATA 'd'>]><r c='d'/>", "c=d/specified"),
+    ("<!DOCTYPE r [<!ATTLIST r c CDATA \"x&amp;y\" t NMTOKENS #IMPLIED>]><r t=' p  q '/>", "c=x&y/defaulted t=p q/specified"),
+    ("<r x='1'/>", "x=1/specified"),
+];
+
+pub fn info_attr_defaults(doc: &str, expected: &str) -> Outcome {
+    use xml_dom::{Attr, Document, NamedNodeMap, Node};
+    let observed = guard(|| {
+        let d = match xml_dom::XmlDocument::from_raw(doc) {
+            Ok((_, d)) => d,
+            Err(_) => return "parse error".to_string(),
+        };
+        let r = match d.document_element() {
+            Ok(r) => r,
+            Err(_) => return "no document element".to_string(),
+        };
+        let mut out = vec![];
+        if let Some(attrs) = r.as_node().attributes() {
+            for a in attrs.iter() {
+                out.push(format!("{}={}/{}", a.node_name(), a.value().unwrap_or_else(|_| "Err".to_string()), if a.specified() { "specified" } else { "defaulted" }));
+            }
+        }
+        out.sort();
+        out.join(" ")
+    });
+    Outcome { observed, expected: expected.to_string(), note: String::new() }
+}
